@@ -75,8 +75,10 @@ Step(s, e, i) ==
          ELSE LET s1 == [s EXCEPT !.fault = Append(s.fault, d)] IN
               \* a unit delivered from the faulted stream carries the first packet of the clean run's unit (a duplicate is dropped whole: its
               \* header and adaptation field - a PCR stamped again - do not replace the original's); PES only: a duplicated table packet is
-              \* delivered a second time, with the duplicate as its first packet (13.4)
-              RepIf(~s.skip /\ e.kind = "pes" /\ ~Get(e, "fpsame", TRUE), s1, [prop |-> "C06", kind |-> "delivered-unit-first-packet-altered", trace |-> s.tr, at |-> i, pid |-> e.pid, u |-> e.u])
+              \* delivered a second time, with the duplicate as its first packet (13.4); duplicate-only scenarios: after a loss "a unit of the
+              \* loss-free output" is judged by content (a unit start lost together with exactly 15 packets behind an equal unit start is
+              \* indistinguishable from a duplicate - 13.4)
+              RepIf(~s.skip /\ e.kind = "pes" /\ ~Get(e, "fpsame", TRUE) /\ ~(\E k \in DOMAIN s.faults : s.faults[k].f = "drop"), s1, [prop |-> "C06", kind |-> "delivered-unit-first-packet-altered", trace |-> s.tr, at |-> i, pid |-> e.pid, u |-> e.u])
     [] e.ev = "eof" -> OnEOF(s, e, i)
     [] OTHER -> s
 
